@@ -290,7 +290,9 @@ package main
 
 // ---- C20: the per-service peer sets are read by the BGP status reconciler concurrently ----
 //@ guarded_by bgpController.activeAdsMutex : bgpController.activeAds
+// a status fetcher: runs beside the handlers (C20), so it may read only what a mutex guards (or what is never written)
 //@ func (*bgpController).PeersForService
+//@   concurrent
 //@   lockonly
 //@   requires c != nil && lockstate(c.activeAdsMutex) == 0
 //@   ensures lockstate(c.activeAdsMutex) == 0 && lockframe(c.activeAdsMutex)
@@ -705,6 +707,10 @@ package main
 //@   assert after append#2: [created] len(ret) == len(newPeers) + 1 && ret[len(newPeers)] != nil && ret[len(newPeers)].cfg == p && ret[len(newPeers)].session == nil
 //@   assert before Close: [leftover] p != nil
 //@   assert before syncBFDProfiles: [peersOk] forall k int :: 0 <= k && k < len(c.peers) ==> c.peers[k] != nil && c.peers[k].cfg != nil
+// no session is leaked: an entry of the old list that is not carried over into the new one and has a session gets Close
+// (the entries carried over are the ones taken out of the old list)
+//@   loop 3 binds p#2
+//@   loop 3 end assert [closedUnlessReused] p != nil && !(p in c.peers) && p.session != nil ==> called(Close)
 //@   loop 1 binds p
 //@   loop 1 invariant newPeers != nil && fresh(newPeers) && (forall k int :: 0 <= k && k < len(newPeers) ==> newPeers[k] != nil && newPeers[k].cfg != nil)
 //@   loop 1 invariant forall k int :: 0 <= k && k < len(c.peers) ==> c.peers[k] == nil || c.peers[k].cfg != nil
